@@ -197,6 +197,35 @@ func (f *frame) execInstr(in ssa.Instruction, st *State, reach string) error {
 			}
 		}
 	case *ssa.Go:
+		// a spawned function under contract: its precondition is an obligation here, its frame is havocked
+		if callee := in.Call.StaticCallee(); callee != nil && !in.Call.IsInvoke() {
+			if ct, ok := x.eng.CS.ByKey[callee.String()]; ok {
+				var args []Val
+				for _, a := range in.Call.Args {
+					args = append(args, f.value(a, st, reach))
+				}
+				extra := map[string]Val{}
+				if mc, ok := in.Call.Value.(*ssa.MakeClosure); ok {
+					cv := f.value(mc, st, reach)
+					if cv.Clo != nil {
+						for i, fv := range callee.FreeVars {
+							if i < len(cv.Clo.Bindings) {
+								if _, isPtr := fv.Type().Underlying().(*types.Pointer); isPtr {
+									extra[fv.Name()] = x.load(st, cv.Clo.Bindings[i], reach, in.Pos())
+								}
+							}
+						}
+					}
+				}
+				x.spawning, x.extraVars = true, extra
+				sig := in.Call.Signature()
+				if _, err := x.applyContract(ct, callee.String(), callee, sig, false, args, sig.Results(), st, reach, in.Pos()); err != nil {
+					return err
+				}
+				x.note("go statement at %s: spawned function under contract (precondition checked, frame havocked)", x.pos(in.Pos()))
+				break
+			}
+		}
 		// no interleaving semantics: the spawned function may write anything it can reach
 		x.note("go statement at %s: heap havocked", x.pos(in.Pos()))
 		if !x.isEffectFree(&in.Call) {
@@ -264,6 +293,28 @@ func (f *frame) execInstr(in ssa.Instruction, st *State, reach string) error {
 			bs = append(bs, f.value(b, st, reach))
 		}
 		f.set(in, Val{Typ: in.Type(), L: []string{IntLit(int64(maxGlobals/2 + x.eng.fnID(fn)))}, Clo: &Closure{Fn: fn, Bindings: bs}})
+		// a closure under contract that is handed to other code (a callback): what its precondition says about
+		// the captured variables is an obligation where the closure is created. (A closure that is spawned is
+		// checked at its go statement, with its arguments.)
+		if ct, ok := x.eng.CS.ByKey[fn.String()]; ok && !onlySpawned(in) {
+			env := &Env{x: x, vars: map[string]Val{}, st: st, old: nil, reach: reach, imports: ct.Imports, pkgPath: ct.PkgPath}
+			for i, fv := range fn.FreeVars {
+				if i < len(bs) {
+					if _, isPtr := fv.Type().Underlying().(*types.Pointer); isPtr {
+						env.vars[fv.Name()] = x.load(st, bs[i], reach, in.Pos())
+					}
+				}
+			}
+			for _, c := range ct.Requires {
+				t, err := env.evalBool(c.E)
+				if err != nil {
+					continue // the clause speaks about a parameter: it is the caller's business
+				}
+				x.addObl(&Obligation{Kind: "pre", Label: c.Label, Props: c.Props, Pos: x.pos(in.Pos()), Reach: reach, Goal: t, ClauseSrc: c.Src,
+					Name:   fmt.Sprintf("%s#pre.%s.%s@L%d", shortFn(x.root), shortName(ct.Display), c.Label, x.line(in.Pos())),
+					Probes: append([]Probe(nil), x.entryProbes...)})
+			}
+		}
 	case *ssa.Range:
 		f.set(in, x.rangeInit(in, f, f.value(in.X, st, reach), st, reach))
 	case *ssa.Next:
@@ -1127,4 +1178,18 @@ func (x *Exec) assumeErrorsWellFormed(v Val, reach string) {
 	tag := x.eng.tagOf(types.NewPointer(tn.Type()))
 	x.sc.Assume(reach, Implies(Eq(v.L[0], fmt.Sprintf("%d", tag)), Not(Eq(v.L[1], "0"))))
 	x.UsedTrust["error values received from a channel do not wrap a nil *TypedError (assumed)"] = true
+}
+
+// onlySpawned reports whether the closure is used by go statements only.
+func onlySpawned(mc *ssa.MakeClosure) bool {
+	refs := mc.Referrers()
+	if refs == nil || len(*refs) == 0 {
+		return false
+	}
+	for _, r := range *refs {
+		if g, ok := r.(*ssa.Go); !ok || g.Call.Value != mc {
+			return false
+		}
+	}
+	return true
 }
